@@ -10,7 +10,9 @@
 #include <sys/syscall.h>
 #include <unistd.h>
 #include <fcntl.h>
+#include <atomic>
 #include <chrono>
+#include <thread>
 #include <functional>
 #include <map>
 #include <set>
@@ -101,6 +103,19 @@ static const std::vector<uint64_t>* g_cur_log = nullptr;
 static char g_cur_path[512];
 static char g_header[256];
 static bool g_dumped = false;
+static std::atomic<int64_t> g_case_started{0};   // steady-clock seconds at which the running case began (0: between cases)
+static std::atomic<bool> g_in_replay{false};
+static char g_hb_path[512];
+static int64_t g_last_hb = 0;
+inline int64_t now_s() { return (int64_t)std::chrono::duration_cast<std::chrono::seconds>(std::chrono::steady_clock::now().time_since_epoch()).count() + 1; }
+// heartbeat for the driver's stall detection: at most one write per second
+inline void heartbeat(uint64_t evaluations) {
+  int64_t t = now_s();
+  if (t == g_last_hb || !g_hb_path[0]) return;
+  g_last_hb = t;
+  int fd = ::open(g_hb_path, O_WRONLY | O_CREAT | O_TRUNC, 0644);
+  if (fd >= 0) { char b[32]; int n = snprintf(b, sizeof b, "%llu\n", (unsigned long long)evaluations); (void)!::write(fd, b, (size_t)n); ::close(fd); }
+}
 // Runs inside sanitizer death callbacks and signal handlers: no instrumented memory accesses (under ThreadSanitizer an
 // instrumented access may need a runtime lock the dying thread already holds - observed as a deadlock), no intercepted
 // libc calls (raw system calls only).
@@ -210,6 +225,7 @@ inline int harness_main(int argc, char** argv, Registry& reg) {
   bool enumerate = false;
   unsigned shard = 0, nshards = 1;
   double shrink_budget = 90;
+  long case_timeout = 0;
   std::string dump_dir;
   for (int i = 1; i < argc; i++) {
     std::string a = argv[i];
@@ -223,6 +239,7 @@ inline int harness_main(int argc, char** argv, Registry& reg) {
     else if (a == "--known") { std::string k = next(); size_t p0 = 0; while (p0 <= k.size()) { size_t q = k.find(',', p0); if (q == std::string::npos) q = k.size(); if (q > p0) known_sigs().insert(k.substr(p0, q - p0)); p0 = q + 1; } }
     else if (a == "--shrink-budget") shrink_budget = atof(next().c_str());
     else if (a == "--dump-cases") dump_dir = next();
+    else if (a == "--case-timeout") case_timeout = atol(next().c_str());
     else if (a == "--enumerate") enumerate = true;
     else if (a == "--shard") shard = (unsigned)strtoul(next().c_str(), 0, 10);
     else if (a == "--nshards") nshards = (unsigned)strtoul(next().c_str(), 0, 10);
@@ -238,6 +255,25 @@ inline int harness_main(int argc, char** argv, Registry& reg) {
   snprintf(detail::g_cur_path, sizeof detail::g_cur_path, "%s.current.choices", out.c_str());
   snprintf(detail::g_header, sizeof detail::g_header, "# prop=%s harness=%s size=%u\n", prop.c_str(), argv[0], size);
   std::string header = detail::g_header;
+  snprintf(detail::g_hb_path, sizeof detail::g_hb_path, "%s.hb", out.c_str());
+  if (case_timeout > 0) {
+    // A case that does not finish is a failure of its own (the calls under test have to return).  The limit is several
+    // orders of magnitude above the normal cost of a case; the driver confirms by three isolated replays.
+    static std::string wd_prop = prop;
+    std::thread([case_timeout] {
+      for (;;) {
+        std::this_thread::sleep_for(std::chrono::milliseconds(500));
+        int64_t st0 = detail::g_case_started.load();
+        if (st0 && detail::now_s() - st0 > case_timeout) {
+          detail::dump_current();
+          char msg[300];
+          int n = snprintf(msg, sizeof msg, "%ssig=%s.no_termination the case did not finish within %ld s\n", detail::g_in_replay.load() ? "REPLAY-FAIL " : "CASE-TIMEOUT ", wd_prop.c_str(), case_timeout);
+          (void)!syscall(SYS_write, 1, msg, (size_t)n);
+          syscall(SYS_exit_group, 97);
+        }
+      }
+    }).detach();
+  }
   ::unlink(detail::g_cur_path);
   ::unlink((out + ".fail.choices").c_str());
   ::unlink((out + ".fail.txt").c_str());
@@ -267,6 +303,10 @@ inline int harness_main(int argc, char** argv, Registry& reg) {
     detail::g_cur_log = &ch.log;
     detail::g_dumped = false;
     st.evaluations++;
+    detail::heartbeat(st.evaluations);
+    detail::g_in_replay = is_replay;
+    detail::g_case_started = detail::now_s();
+    struct CaseEnd { ~CaseEnd() { detail::g_case_started = 0; } } case_end;
     try {
       try {
         fn(cs);
